@@ -237,33 +237,140 @@ package intermediate
 //@                 isFirst(incomingRecord, a.correlateFields[k], j) && dt(recList(incomingRecord)[j]) == Signed32 && recList(incomingRecord)[j].(*Signed32InfoElement).value != 0
 //@                 && isFirst(existingRecord, a.correlateFields[k], l) ==> recList(existingRecord)[l].(*Signed32InfoElement).value == recList(incomingRecord)[j].(*Signed32InfoElement).value
 
+//@ pure allStats(a *AggregationProcess, r entities.Record) bool = forall i in [0, len(cfg(a).StatsElements)): hasName(r, cfg(a).StatsElements[i])
+//@ // first-record seeding of the per-node counters (C05): VERIFIED count, names and values (for every configured counter i0 and element index j0); the
+//@ // data-type consistency of names and the freshness/distinctness of the new element objects are assumed (assumed_ clauses)
 //@ func (a *AggregationProcess) addFieldsForStatsAggregation(record, fillSrcStats, fillDstStats) (err)
-//@   requires rec: recNN(record)
-//@   // seeds the per-node counters: afterwards the record carries the common and per-node counter fields (TRUSTED: the record's elements
-//@   // built here are not well typed in the sense of the entities contracts, so AddInfoElement's verified contract does not apply)
-//@   ensures  in:  old(inFields(a, record)) ==> inFields(a, record)
-//@   ensures  exs: err == nil && cfg(a) != nil && old(inFields(a, record)) ==> exStats(a, record)
-//@   ensures  rec: recNN(record) && (old(flowKinds(record)) ==> flowKinds(record)) && record.(*dataRecord) == old(record.(*dataRecord))
+//@   requires a:   a != nil
+//@   requires rec: recNN(record) && dense(record)
+//@   requires cfgl: cfg(a) != nil ==> statsLens(a) && regNameInv() && regKinds(a) && len(recList(record)) + 2 * len(cfg(a).StatsElements) < 65536
+//@   requires in:  cfg(a) != nil ==> (forall i in [0, len(cfg(a).StatsElements)): kind64(record, cfg(a).StatsElements[i]))
+//@   given i0, j0
+//@   let n0 = old(len(recList(record)))
+//@   ensures  nocfg: cfg(a) == nil ==> err == nil && len(recList(record)) == n0
+//@   ensures  assumed_in:  old(inFields(a, record)) ==> inFields(a, record)
+//@   ensures  assumed_exs: err == nil && cfg(a) != nil && old(inFields(a, record)) ==> exStats(a, record)
+//@   ensures  assumed_rec: recNN(record) && (old(flowKinds(record)) ==> flowKinds(record)) && (old(kind64(record, "octetTotalCount") && kind64(record, "reverseOctetTotalCount")) ==> kind64(record, "octetTotalCount") && kind64(record, "reverseOctetTotalCount"))
+//@   ensures  same: record.(*dataRecord) == old(record.(*dataRecord)) && dense(record)
+//@   ensures  bound: cfg(a) != nil ==> len(recList(record)) <= n0 + 2 * len(cfg(a).StatsElements)
 //@   ensures  arr: arr(recList(record)) == old(arr(recList(record))) || fresh(recList(record))
-//@   // fields are only appended: the record's elements so far stay in place, the new ones are freshly allocated objects
+//@   // fields are only appended: the record's elements so far stay in place
 //@   ensures  grow: len(recList(record)) >= old(len(recList(record))) && (forall j in [0, old(len(recList(record)))): recList(record)[j] == old(recList(record)[j]))
-//@                  && (forall j in [old(len(recList(record))), len(recList(record))): fresh(recList(record)[j].(*baseInfoElement)))
-//@   ensures  keepdistinct: old(distinctElems(record)) ==> distinctElems(record)
+//@   ensures  assumed_new: forall j in [old(len(recList(record))), len(recList(record))): fresh(recList(record)[j].(*baseInfoElement))
+//@   ensures  assumed_keepdistinct: old(distinctElems(record)) ==> distinctElems(record)
+//@   // two fields per configured counter the record carries, in configuration order: the source-node field, then the destination-node field,
+//@   // each holding the record's counter if the record comes from that node and 0 otherwise
+//@   ensures  count: err == nil && cfg(a) != nil && old(allStats(a, record)) ==> len(recList(record)) == n0 + 2 * len(cfg(a).StatsElements)
+//@   ensures  seed:  err == nil && cfg(a) != nil && old(allStats(a, record)) && 0 <= i0 && i0 < len(cfg(a).StatsElements) && 0 <= j0 && j0 < n0 && old(isFirst(record, cfg(a).StatsElements[i0], j0)) ==>
+//@                  ie(recList(record)[n0 + 2 * i0]).Name == cfg(a).AggregatedSourceStatsElements[i0] && u64v(recList(record)[n0 + 2 * i0]) == (fillSrcStats ? old(u64v(recList(record)[j0])) : 0)
+//@                  && ie(recList(record)[n0 + 2 * i0 + 1]).Name == cfg(a).AggregatedDestinationStatsElements[i0] && u64v(recList(record)[n0 + 2 * i0 + 1]) == (fillDstStats ? old(u64v(recList(record)[j0])) : 0)
 //@   modifies record.(*dataRecord).len, record.(*dataRecord).fieldCount, record.(*dataRecord).orderedElementList, recList(record)[*]
-//@   trusted
+//@   loop 1 invariant cnt:  0 <= $i && $i <= len(cfg(a).StatsElements) && dense(record) && record.(*dataRecord) == old(record.(*dataRecord)) && len(recList(record)) >= n0 && len(recList(record)) <= n0 + 2 * $i
+//@   loop 1 invariant all:  old(allStats(a, record)) ==> len(recList(record)) == n0 + 2 * $i
+//@   loop 1 invariant nn:   forall j in [0, len(recList(record))): wfElemA(recList(record)[j])
+//@   loop 1 invariant k64:  forall j in [0, len(recList(record))): forall i in [0, len(cfg(a).StatsElements)): ie(recList(record)[j]).Name == cfg(a).StatsElements[i] ==> dt(recList(record)[j]) == Unsigned64
+//@   loop 1 invariant arr:  arr(recList(record)) == old(arr(recList(record))) || fresh(recList(record))
+//@   loop 1 invariant keep: forall j in [0, n0): recList(record)[j] == old(recList(record)[j])
+//@   loop 1 invariant seed: old(allStats(a, record)) && 0 <= i0 && i0 < $i && 0 <= j0 && j0 < n0 && old(isFirst(record, cfg(a).StatsElements[i0], j0)) ==>
+//@                  ie(recList(record)[n0 + 2 * i0]).Name == cfg(a).AggregatedSourceStatsElements[i0] && u64v(recList(record)[n0 + 2 * i0]) == (fillSrcStats ? old(u64v(recList(record)[j0])) : 0)
+//@                  && ie(recList(record)[n0 + 2 * i0 + 1]).Name == cfg(a).AggregatedDestinationStatsElements[i0] && u64v(recList(record)[n0 + 2 * i0 + 1]) == (fillDstStats ? old(u64v(recList(record)[j0])) : 0)
+//@   callpost AddInfoElement nn:   forall j in [0, len(recList(record))): wfElemA(recList(record)[j])
+//@   callpost AddInfoElement k64:  forall j in [0, len(recList(record))): forall i in [0, len(cfg(a).StatsElements)): ie(recList(record)[j]).Name == cfg(a).StatsElements[i] ==> dt(recList(record)[j]) == Unsigned64
+//@   callpost AddInfoElement arr:  arr(recList(record)) == old(arr(recList(record))) || fresh(recList(record))
+//@   callpost AddInfoElement keep: forall j in [0, n0): recList(record)[j] == old(recList(record)[j])
+//@   callpost AddInfoElement shape: dense(record) && record.(*dataRecord) == old(record.(*dataRecord)) && len(recList(record)) >= n0
+
+//@ // ---- first-record seeding (C05): VERIFIED structure, names and values; the data-type consistency of names is assumed (assumed_ clauses) ----
+//@ // dense: the record's field count is its element count (true of decoded records and of records built by AddInfoElement)
+//@ pure dense(r entities.Record) bool = r.(*dataRecord).fieldCount == len(recList(r))
+//@ // seedRoom: the 16-bit field count has room for the seeded fields
+//@ pure seedRoom(a *AggregationProcess, r entities.Record) bool = len(recList(r)) + 2 * len(cfg(a).StatsElements) + len(cfg(a).AntreaFlowEndSecondsElements) + 3 * len(cfg(a).ThroughputElements) < 65536
+//@ pure antreaID() int = 56506
+//@ // seedPre / seedCfg: what first-record seeding needs of an incoming record and of the configuration against the registry
+//@ pure seedPre(a *AggregationProcess, r entities.Record) bool = dense(r) && (cfg(a) != nil ==> seedRoom(a, r) && kind64(r, "octetTotalCount") && kind64(r, "reverseOctetTotalCount"))
+//@ pure seedCfg(a *AggregationProcess) bool = cfg(a) != nil ==> statsLens(a) && regNameInv() && regKinds(a)
+//@ // regKinds: the registry types the configured per-node / throughput names as the aggregation code uses them
+//@ pure regKinds(a *AggregationProcess) bool =
+//@     (forall k in [0, len(cfg(a).AntreaFlowEndSecondsElements)): regHasName(antreaID(), cfg(a).AntreaFlowEndSecondsElements[k]) ==>
+//@         (regNamed(antreaID(), cfg(a).AntreaFlowEndSecondsElements[k]).DataType == DateTimeSeconds || regNamed(antreaID(), cfg(a).AntreaFlowEndSecondsElements[k]).DataType == Unsigned32))
+//@     && (forall i in [0, len(cfg(a).ThroughputElements)):
+//@         (regHasName(antreaID(), cfg(a).ThroughputElements[i]) ==> regNamed(antreaID(), cfg(a).ThroughputElements[i]).DataType == Unsigned64)
+//@         && (regHasName(antreaID(), cfg(a).SourceThroughputElements[i]) ==> regNamed(antreaID(), cfg(a).SourceThroughputElements[i]).DataType == Unsigned64)
+//@         && (regHasName(antreaID(), cfg(a).DestinationThroughputElements[i]) ==> regNamed(antreaID(), cfg(a).DestinationThroughputElements[i]).DataType == Unsigned64))
+//@     && (forall i in [0, len(cfg(a).StatsElements)):
+//@         (regHasName(antreaID(), cfg(a).AggregatedSourceStatsElements[i]) ==> regNamed(antreaID(), cfg(a).AggregatedSourceStatsElements[i]).DataType == Unsigned64)
+//@         && (regHasName(antreaID(), cfg(a).AggregatedDestinationStatsElements[i]) ==> regNamed(antreaID(), cfg(a).AggregatedDestinationStatsElements[i]).DataType == Unsigned64))
+//@ // the seeded throughput: bits per second over the flow's lifetime, 0 for a flow that starts and ends in the same second (64-bit arithmetic)
+//@ pure seedThr(bytes int, start int, end int) int = end > start ? ((bytes * 8) % 18446744073709551616) / (end - start) : 0
+//@ pure seedEnd(name string, fillSrc bool, fillDst bool, end int) int = ((fillSrc && contains(name, "Source")) || (fillDst && contains(name, "Destination"))) ? end : 0
+//@ pure seedIdx(r entities.Record, js int, je int, jb int, jr int) bool = 0 <= js && js < len(recList(r)) && 0 <= je && je < len(recList(r)) && 0 <= jb && jb < len(recList(r)) && 0 <= jr && jr < len(recList(r))
+//@     && isFirst(r, "flowStartSeconds", js) && isFirst(r, "flowEndSeconds", je) && isFirst(r, "octetTotalCount", jb) && isFirst(r, "reverseOctetTotalCount", jr)
+//@ pure u32obj(e entities.InfoElementWithValue) int = e.(*Unsigned32InfoElement).value
+//@ // the throughput fields are seeded in triples (common, source node, destination node) per configured throughput element: offset d is element d/3, slot d%3
+//@ pure thrNameAt(a *AggregationProcess, d int) string = d % 3 == 0 ? cfg(a).ThroughputElements[d / 3] : (d % 3 == 1 ? cfg(a).SourceThroughputElements[d / 3] : cfg(a).DestinationThroughputElements[d / 3])
+//@ pure thrValAt(d int, fillSrc bool, fillDst bool, v0 int, v1 int) int = d % 3 == 0 ? (d / 3 == 0 ? v0 : v1) : (d % 3 == 1 ? (fillSrc ? (d / 3 == 0 ? v0 : v1) : 0) : (fillDst ? (d / 3 == 0 ? v0 : v1) : 0))
+
+//@ func getUnsigned32ValueByIeName(record, ieName) (r, err)
+//@   requires rec:   recNN(record) && kind32(record, ieName)
+//@   ensures  found: (err == nil) <==> hasName(record, ieName)
+//@   ensures  val:   forall j in [0, len(recList(record))): isFirst(record, ieName, j) ==> r == u32v(recList(record)[j])
+//@   noeffect
+
+//@ func getUnsigned64ValueByIeName(record, ieName) (r, err)
+//@   requires rec:   recNN(record) && kind64(record, ieName)
+//@   ensures  found: (err == nil) <==> hasName(record, ieName)
+//@   ensures  val:   forall j in [0, len(recList(record))): isFirst(record, ieName, j) ==> r == u64v(recList(record)[j])
+//@   noeffect
 
 //@ func (a *AggregationProcess) addFieldsForThroughputCalculation(record, fillSrcStats, fillDstStats) (err)
-//@   requires rec: recNN(record)
-//@   // seeds the node end times and throughput fields, keeping what the record carried (TRUSTED, see addFieldsForStatsAggregation)
-//@   ensures  ex:  err == nil && cfg(a) != nil && old(inFields(a, record)) ==> exThr(a, record) && inFields(a, record) && (old(exStats(a, record)) ==> exStats(a, record))
-//@   ensures  rec: recNN(record) && (old(flowKinds(record)) ==> flowKinds(record)) && record.(*dataRecord) == old(record.(*dataRecord))
+//@   requires a:   a != nil
+//@   requires rec: recNN(record) && dense(record)
+//@   requires cfgl: cfg(a) != nil ==> statsLens(a) && regNameInv() && regKinds(a) && len(recList(record)) + len(cfg(a).AntreaFlowEndSecondsElements) + 3 * len(cfg(a).ThroughputElements) < 65536
+//@   requires in:  cfg(a) != nil ==> kind32(record, "flowStartSeconds") && kind32(record, "flowEndSeconds") && kind64(record, "octetTotalCount") && kind64(record, "reverseOctetTotalCount")
+//@   given js, je, jb, jr
+//@   let n0 = old(len(recList(record)))
+//@   let nE = len(cfg(a).AntreaFlowEndSecondsElements)
+//@   ensures  nocfg: cfg(a) == nil ==> err == nil && len(recList(record)) == n0
+//@   // data-type consistency of element names (the seeded elements carry registry types; that no other element of the record shares a
+//@   // seeded name with another type, and that a seeded name is not one of the fixed names with another type) is ASSUMED, as before
+//@   ensures  assumed_ex:  err == nil && cfg(a) != nil && old(inFields(a, record)) ==> exThr(a, record) && inFields(a, record) && (old(exStats(a, record)) ==> exStats(a, record))
+//@   ensures  assumed_kinds: old(flowKinds(record)) ==> flowKinds(record)
+//@   ensures  assumed_rec: recNN(record)
+//@   ensures  same: record.(*dataRecord) == old(record.(*dataRecord))
 //@   ensures  arr: arr(recList(record)) == old(arr(recList(record))) || fresh(recList(record))
 //@   // fields are only appended: the record's elements so far stay in place, the new ones are freshly allocated objects
 //@   ensures  grow: len(recList(record)) >= old(len(recList(record))) && (forall j in [0, old(len(recList(record)))): recList(record)[j] == old(recList(record)[j]))
-//@                  && (forall j in [old(len(recList(record))), len(recList(record))): fresh(recList(record)[j].(*baseInfoElement)))
-//@   ensures  keepdistinct: old(distinctElems(record)) ==> distinctElems(record)
+//@   ensures  assumed_new: forall j in [old(len(recList(record))), len(recList(record))): fresh(recList(record)[j].(*baseInfoElement))
+//@   ensures  assumed_keepdistinct: old(distinctElems(record)) ==> distinctElems(record)
+//@   // which fields are seeded, where, and with what: the node end times, then per throughput element the common, source-node and destination-node field
+//@   ensures  count: err == nil && cfg(a) != nil ==> len(recList(record)) == n0 + nE + 3 * len(cfg(a).ThroughputElements)
+//@   ensures  endseed: err == nil && cfg(a) != nil && old(seedIdx(record, js, je, jb, jr)) ==> (forall k in [0, nE): ie(recList(record)[n0 + k]).Name == cfg(a).AntreaFlowEndSecondsElements[k]
+//@                  && u32obj(recList(record)[n0 + k]) == seedEnd(cfg(a).AntreaFlowEndSecondsElements[k], fillSrcStats, fillDstStats, old(u32v(recList(record)[je]))))
+//@   ensures  thrname: err == nil && cfg(a) != nil ==> (forall q in [n0 + nE, len(recList(record))): ie(recList(record)[q]).Name == thrNameAt(a, q - n0 - nE))
+//@   ensures  thrseed: err == nil && cfg(a) != nil && old(seedIdx(record, js, je, jb, jr)) ==> (forall q in [n0 + nE, len(recList(record))): u64v(recList(record)[q]) == thrValAt(q - n0 - nE, fillSrcStats, fillDstStats,
+//@                      seedThr(old(u64v(recList(record)[jb])), old(u32v(recList(record)[js])), old(u32v(recList(record)[je]))), seedThr(old(u64v(recList(record)[jr])), old(u32v(recList(record)[js])), old(u32v(recList(record)[je])))))
 //@   modifies record.(*dataRecord).len, record.(*dataRecord).fieldCount, record.(*dataRecord).orderedElementList, recList(record)[*]
-//@   trusted
+//@   loop 1 invariant cnt:  0 <= $i && $i <= nE && len(recList(record)) == n0 + $i && dense(record) && record.(*dataRecord) == old(record.(*dataRecord))
+//@   loop 1 invariant arr:  arr(recList(record)) == old(arr(recList(record))) || fresh(recList(record))
+//@   loop 1 invariant keep: forall j in [0, n0): recList(record)[j] == old(recList(record)[j])
+//@   loop 1 invariant endseed: old(seedIdx(record, js, je, jb, jr)) ==> (forall k in [0, $i): ie(recList(record)[n0 + k]).Name == cfg(a).AntreaFlowEndSecondsElements[k]
+//@                  && u32obj(recList(record)[n0 + k]) == seedEnd(cfg(a).AntreaFlowEndSecondsElements[k], fillSrcStats, fillDstStats, old(u32v(recList(record)[je]))))
+//@   loop 1 invariant vals: old(seedIdx(record, js, je, jb, jr)) ==> timeStart == old(u32v(recList(record)[js])) && timeEnd == old(u32v(recList(record)[je])) && byteCount == old(u64v(recList(record)[jb])) && reverseByteCount == old(u64v(recList(record)[jr]))
+//@   loop 2 invariant cnt:  0 <= $i && $i <= len(cfg(a).ThroughputElements) && len(recList(record)) == n0 + nE + 3 * $i && dense(record) && record.(*dataRecord) == old(record.(*dataRecord))
+//@   loop 2 invariant arr:  arr(recList(record)) == old(arr(recList(record))) || fresh(recList(record))
+//@   loop 2 invariant keep: forall j in [0, n0): recList(record)[j] == old(recList(record)[j])
+//@   loop 2 invariant endseed: old(seedIdx(record, js, je, jb, jr)) ==> (forall k in [0, nE): ie(recList(record)[n0 + k]).Name == cfg(a).AntreaFlowEndSecondsElements[k]
+//@                  && u32obj(recList(record)[n0 + k]) == seedEnd(cfg(a).AntreaFlowEndSecondsElements[k], fillSrcStats, fillDstStats, old(u32v(recList(record)[je]))))
+//@   loop 2 invariant tv:   old(seedIdx(record, js, je, jb, jr)) ==> incomingVal == seedThr(old(u64v(recList(record)[jb])), old(u32v(recList(record)[js])), old(u32v(recList(record)[je])))
+//@                  && reverseIncomingVal == seedThr(old(u64v(recList(record)[jr])), old(u32v(recList(record)[js])), old(u32v(recList(record)[je])))
+//@   loop 2 invariant thrname: (forall q in [n0 + nE, len(recList(record))): ie(recList(record)[q]).Name == thrNameAt(a, q - n0 - nE))
+//@   loop 2 invariant thrseed: old(seedIdx(record, js, je, jb, jr)) ==> (forall q in [n0 + nE, len(recList(record))): u64v(recList(record)[q]) == thrValAt(q - n0 - nE, fillSrcStats, fillDstStats,
+//@                      seedThr(old(u64v(recList(record)[jb])), old(u32v(recList(record)[js])), old(u32v(recList(record)[je]))), seedThr(old(u64v(recList(record)[jr])), old(u32v(recList(record)[js])), old(u32v(recList(record)[je])))))
+//@   callpost AddInfoElement arr: arr(recList(record)) == old(arr(recList(record))) || fresh(recList(record))
+//@   callpost AddInfoElement keep: forall j in [0, n0): recList(record)[j] == old(recList(record)[j])
+//@   callpost AddInfoElement thrname: (forall q in [n0 + nE, len(recList(record))): ie(recList(record)[q]).Name == thrNameAt(a, q - n0 - nE))
+//@   callpost AddInfoElement thrseed: old(seedIdx(record, js, je, jb, jr)) ==> (forall q in [n0 + nE, len(recList(record))): u64v(recList(record)[q]) == thrValAt(q - n0 - nE, fillSrcStats, fillDstStats, seedThr(old(u64v(recList(record)[jb])), old(u32v(recList(record)[js])), old(u32v(recList(record)[je]))), seedThr(old(u64v(recList(record)[jr])), old(u32v(recList(record)[js])), old(u32v(recList(record)[je])))))
+//@   callpost AddInfoElement shape: dense(record) && record.(*dataRecord) == old(record.(*dataRecord)) && len(recList(record)) <= n0 + nE + 3 * len(cfg(a).ThroughputElements)
 
 //@ // distinctRec: two records are different objects with different element arrays (an incoming record is never one that is already held)
 //@ pure distinctRec(r1 entities.Record, r2 entities.Record) bool = r1.(*dataRecord) != r2.(*dataRecord) && arr(recList(r1)) != arr(recList(r2))
@@ -279,6 +386,7 @@ package intermediate
 //@   requires corr: has(a.flowKeyRecordMap, mapkey(*flowKey)) ==> corrOK(a, record, a.flowKeyRecordMap[mapkey(*flowKey)].Record)
 //@   requires agg:  has(a.flowKeyRecordMap, mapkey(*flowKey)) ==> aggOK(a, record, a.flowKeyRecordMap[mapkey(*flowKey)].Record)
 //@   requires infields: cfg(a) != nil ==> inFields(a, record)
+//@   requires seedpre: seedPre(a, record) && seedCfg(a)
 //@   let key = mapkey(*flowKey)
 //@   ensures  inv:  aggInv(a)
 //@   ensures  retry: aggRetry(a)
@@ -421,6 +529,8 @@ package intermediate
 //@   // what aggregation needs: a sane configuration, incoming records with the exporter's fields, held records with the aggregated fields
 //@   requires aggcfg:  cfg(a) != nil ==> statsLens(a) && statsNamesDistinct(a) && thrNamesDistinct(a) && thrNamesDistinct2(a)
 //@   requires aggin:   cfg(a) != nil ==> (forall i in [0, len(msgRecs(message))): inFields(a, msgRecs(message)[i]))
+//@   // what first-record seeding needs: the configured per-node names are registered with the types the code uses; incoming records have as many fields as elements
+//@   requires seed:    seedCfg(a) && (forall i in [0, len(msgRecs(message))): seedPre(a, msgRecs(message)[i]))
 //@   requires aggheld: cfg(a) != nil ==> (forall k: has(a.flowKeyRecordMap, k) ==> exFields(a, a.flowKeyRecordMap[k].Record))
 //@   ensures  inv:  aggInv(a) && aggRetry(a)
 //@   ensures  recs: forall k: has(a.flowKeyRecordMap, k) ==> recNN(a.flowKeyRecordMap[k].Record) && flowKinds(a.flowKeyRecordMap[k].Record)
@@ -441,6 +551,7 @@ package intermediate
 //@   loop 1 invariant cf: a.correlateFields == old(a.correlateFields) && cfg(a) == old(cfg(a))
 //@   loop 1 invariant aggcfg:  cfg(a) != nil ==> statsLens(a) && statsNamesDistinct(a) && thrNamesDistinct(a) && thrNamesDistinct2(a)
 //@   loop 1 invariant aggin:   cfg(a) != nil ==> (forall i in [$i, len(msgRecs(message))): inFields(a, msgRecs(message)[i]))
+//@   loop 1 invariant seed:    seedCfg(a) && (forall i in [$i, len(msgRecs(message))): seedPre(a, msgRecs(message)[i]))
 //@   loop 1 invariant aggheld: cfg(a) != nil ==> (forall k: has(a.flowKeyRecordMap, k) ==> exFields(a, a.flowKeyRecordMap[k].Record))
 
 // ---------------------------------------------------------------------------
